@@ -504,6 +504,14 @@ def partitions(tier, seed):
             P.append(_mk('s', ops, 2, D1, 3, S=1))
         for ops in [(2, 0), (3, 2), (1, 2), (10, 0)]:
             P.append(_mk('s', ops, 3, b'-x', 4, S=0))
+        # multi-byte delimiters straddling buffer / chunk edges after a prior read or peek
+        for ops in [(0, 2), (0, 3), (1, 3)]:
+            P.append(_mk('s', ops, 3, b'-x', 5, S=0))
+        for ops in [(0, 2), (1, 2)]:
+            P.append(_mk('s', ops, 3, b'-x-', 5, S=0))
+        # 7 bytes: a 3-byte delimiter can straddle two full chunks with more data behind it (no EOF shortcut)
+        P.append(_mk('s', (0, 2), 3, b'-x-', 7, S=0))
+        P.append(_mk('s', (0, 3), 3, b'-x-', 7, S=0))
         P.append(_mk('s', (2, 0), 2, D1, 3, msl=-1, S=0))
         P.append(_mk('s', (3, 1), 2, D1, 3, msl=1, S=0))
         P.append(_mk('s', (2, 0), 1, D1, 3, maxjoin=1, S=0))
@@ -516,6 +524,10 @@ def partitions(tier, seed):
             P.append(_mk('a', ops, 2, D1, 3 if small else 4, cuts=(1, 2) if small else cutsel[i % len(cutsel)]))
         for i, ops in enumerate([(2, 0), (3, 2), (1, 2), (9, 0)]):
             P.append(_mk('a', ops, 3, b'-x', 4, cuts=cutsel[(i + 1) % len(cutsel)]))
+        for ops, cuts in [((1, 2), (3, 5)), ((0, 2), (3, 4)), ((1, 3), (2, 3))]:
+            P.append(_mk('a', ops, 3, b'-x-', 5, cuts=cuts))
+        P.append(_mk('a', (0, 2), 3, b'-x', 5, cuts=(3, 5)))
+        P.append(_mk('a', (0, 2), 3, b'-x-', 7, cuts=(3, 6)))
         P.append(_mk('a', (2, 0), 1, D1, 3, maxjoin=1, cuts=(1, 2)))
         P.append(_mk('a', (0, 2), 1, D1, 3, maxjoin=1, cuts=(0, 2)))
         return P
